@@ -329,7 +329,8 @@ pub fn run(ctx: &mut Ctx) {
             }
             0 => (None, DEFAULT_ID.to_string()),
             1 => {
-                let l = p.range(0, 40);
+                // every second one at an ENTL byte threshold (32 bytes = 0x0100 bits, 256, 4096, 8191)
+                let l = if i % 8 == 1 { [32usize, 33, 255, 256, 4096, 8191][(i / 8) % 6] } else { p.range(0, 40) };
                 let s = ascii_id(p, l);
                 (Some(leak(s.clone())), s)
             }
